@@ -6,7 +6,7 @@ import kernels, tvlib, harness_acd, harness_solvers
 import solverlib as sl
 
 GEN_SOURCES = ["skglm/solvers/anderson_cd.py", "skglm/datafits/single_task.py", "skglm/utils/prox_funcs.py", "skglm/penalties/separable.py", "skglm/solvers/gram_cd.py"]
-EXTRA_TARGETS = ["Skel/MockACD.vo", "Gen/KernCD.vo", "Gen/KernACD.vo", "Gen/DfSingle.vo", "Gen/PenSeparable.vo", "Skel/CorrSolvers.vo", "Skel/GramCDProofs.vo", "Skel/GroupBCDProofs.vo", "Skel/ProxNewtonProofs.vo", "Skel/FistaProofs.vo", "Skel/GramCDAnderson.vo", "Skel/MultiTaskBCDProofs.vo"]
+EXTRA_TARGETS = ["Skel/MockACD.vo", "Gen/KernCD.vo", "Gen/KernACD.vo", "Gen/DfSingle.vo", "Gen/PenSeparable.vo", "Skel/CorrSolvers.vo", "Skel/GramCDProofs.vo", "Skel/GroupBCDProofs.vo", "Skel/ProxNewtonProofs.vo", "Skel/FistaProofs.vo", "Skel/GramCDAnderson.vo", "Skel/MultiTaskBCDProofs.vo", "Skel/GroupProxNewton.vo"]
 TRUSTED_BASE = [
     "Coq 8.16.1 kernel (coqc); vm_compute only in correspondence files",
     "axioms: Reals (sig_forall_dec, sig_not_dec), functional_extensionality_dep, Classical_Prop.classic",
